@@ -22,7 +22,7 @@ RULE = (
     "real process on a loopback port; the xandikos.wsgi module in a fresh process behind WellknownRedirector and a SCRIPT_NAME mount} x restarts {0, 1, 3}. A discovery client written for the "
     "harness starts at /.well-known/caldav, /.well-known/carddav and the root URL, follows redirects, reads current-user-principal, then calendar-home-set / addressbook-home-set / resourcetype of "
     "the principal, then lists the home sets with Depth 1, using only hrefs the server returned. It must reach >=1 calendar and >=1 address book; an event and a contact stored before the first "
-    "restart must be served with unchanged ETag and bytes after every restart and the set of collections must not change across restarts. Before the restarts a bare git calendar and a bare git address book are placed in the home sets (data that did not come through the server; they must be reached with their types), the client stores an event and a contact directly in the home sets (the collections must stay reachable), creates a collection of one type in a home set, deletes it and creates a collection of the "
+    "restart must be served with unchanged ETag and bytes after every restart and the set of collections must not change across restarts. Before the restarts a bare git calendar and a bare git address book are placed in the home sets and a calendar is linked into the calendar home set with a symbolic link (data that did not come through the server; all must be reached with their types), the client stores an event and a contact directly in the home sets (the collections must stay reachable), creates a collection of one type in a home set, deletes it and creates a collection of the "
     "other type at the same URL (both orders): discovery must list what exists now, with its type. Quick: 96 configurations (all with >=1 restart) sampled with the seed; "
     "thorough: all 288. Non-trivial: non-root prefix or nested principal, with >=1 restart; distinct by configuration."
 )
@@ -403,7 +403,22 @@ def run_config(cfg):
                         trace.append(("bare-repository", fs))
                 except Exception as e:
                     raise RuntimeError(f"harness: could not create bare repositories: {e!r}")
+                # ... and a calendar that is a symbolic link to a directory elsewhere in the data directory (a shared calendar)
+                try:
+                    home = found["calendar"][1][0]
+                    rel = urllib.parse.unquote(home[len(pre):] if pre and home.startswith(pre) else home)
+                    link = os.path.join(data, rel.strip("/"), "linked")
+                    target_dir = os.path.join(data, "shared-elsewhere", "team")
+                    if not os.path.lexists(link):
+                        os.makedirs(os.path.dirname(target_dir), exist_ok=True)
+                        shutil.copytree(os.path.join(data, rel.strip("/"), "shared"), target_dir, symlinks=True)
+                        os.symlink(target_dir, link)
+                    trace.append(("symlinked-collection", link))
+                except Exception as e:
+                    raise RuntimeError(f"harness: could not create the symbolic link: {e!r}")
                 now = discover(srv, starts[0], trace)
+                if found["calendar"][1][0] + "linked/" not in now["calendar"][0]:
+                    return fail("symlinked-collection-not-reached", f"a calendar linked into the home set at {found['calendar'][1][0] + 'linked/'!r} is not reached: {now['calendar'][0]}")
                 for kind, nm in (("calendar", "shared"), ("addressbook", "family")):
                     want = found[kind][1][0] + nm + "/"
                     if want not in now[kind][0]:
